@@ -128,6 +128,7 @@ class Executor:
         self.prune_solver.set('timeout', 300)
         self.prune_depth = 0
         self.unfold_done = set()
+        self.view_versions = {}
         self.fresh_ids = set()
         self.fresh_keep = []
         self.code_ids = {}
@@ -703,6 +704,7 @@ class Executor:
         st.alloc = na
         self.flush_ref_axioms(st)
         frame = frame.copy()
+        self._cur_frame = frame
         for ins in fn.blocks[h]['instrs']:
             if ins['op'] != 'Phi':
                 break
@@ -747,6 +749,18 @@ class Executor:
         """the hidden index of a range loop over a slice/string/int: -1 <= idx < len"""
         if ins.get('comment') == 'rangeindex':
             st.assume(nv.leaves[0] >= -1)
+            # header of a range loop: `t = phi; t1 = t + 1; c = t1 < len; if c`: len is fixed before the loop
+            blk = fn.blocks[h]['instrs']
+            inc = None
+            for j in blk:
+                if j['op'] == 'BinOp' and j['tok'] == '+' and j['args'][0].get('n') == ins['reg']:
+                    inc = j['reg']
+                if inc and j['op'] == 'BinOp' and j['tok'] == '<' and j['args'][0].get('n') == inc:
+                    b = j['args'][1]
+                    if b['k'] == 'reg' and b['n'] in self._cur_frame.regs:
+                        st.assume(nv.leaves[0] + 1 <= self._cur_frame.regs[b['n']].leaves[0])
+                    elif b['k'] == 'const':
+                        st.assume(nv.leaves[0] + 1 <= int(b['v']))
 
     def loop_env(self, frame, st, info, h):
         env = self.spec.env_for(frame, st, frame.entry if frame.top else info['entry_state'], None)
@@ -1218,9 +1232,29 @@ class Executor:
             leaves = [r]
         return Val(ins['t'], [self.m.any_make(x.t, leaves)])
 
+    def wf_unfold(self, st, frame, v):
+        """definition of the well-formedness predicate at a node the code is about to inspect (fuel on demand)"""
+        if not self.db.contracts:
+            return
+        t = self.m.types.get(v.t) or {}
+        impls = t.get('impls') or (self.m.types.get(self.m.under(v.t)) or {}).get('impls')
+        if not impls:
+            return
+        from . import specfuns
+        env = self.spec.env_for(frame, st, st, None)
+        excl = self.db.wfexclude.get(t.get('name', ''), set())
+        cands = [c for c in impls if c.rsplit('.', 1)[-1] not in excl]
+        specfuns.unfold_any(self.spec, env, v.t, v.leaves[0], cands)
+        # the excluded implementers are never well-formed nodes of this interface
+        wf = specfuns.wf_any_fn(self.spec)
+        for c in impls:
+            if c.rsplit('.', 1)[-1] in excl and c in self.m.any_index:
+                st.assume(z3.Not(z3.And(wf(v.leaves[0]), self.m.any_is(c, v.leaves[0]))))
+
     def i_TypeAssert(self, st, frame, ins):
         x = self.operand(st, frame, ins['args'][0])
         a = x.leaves[0]
+        self.wf_unfold(st, frame, x)
         at = ins['assert_t']
         m = self.m
         if m.kind(at) == 'interface':
@@ -1705,6 +1739,7 @@ class Executor:
         """interface method call: dispatch over the known implementers"""
         a = recv.leaves[0]
         m = self.m
+        self.wf_unfold(st, frame, recv)
         self.safety(st, frame, 'nil', ins, a != m.Any.nil, 'method call on nil interface')
         handled = lib.invoke(self, st, frame, ins, recv, method, args)
         if handled is not lib.NOT_HANDLED:
@@ -1750,26 +1785,56 @@ class Executor:
             cont(st3, fr3, res)
 
     def merge_outcomes(self, st, frame, outcomes, base_len):
-        """if every outcome left memory untouched, join them into one state (results as ite)"""
+        """join the outcomes of a dynamic dispatch into one state: results, heaps and the allocation
+        counter become if-then-else terms over the path conditions of the outcomes"""
         if len(outcomes) <= 1:
             return None
+        if len(outcomes) > 40:
+            return None
         for (st3, fr3, res) in outcomes:
-            if not st3.alloc.eq(st.alloc):
-                return None
-            for k, v in st3.heaps.items():
-                v0 = st.heaps.get(k)
-                if v0 is None:
-                    v0 = self._base.get(k if st.gen == 0 else (k, st.gen))
-                if v0 is None or not v.eq(v0):
-                    return None
             if res is not None and (res.ptr is not None or (res.py is not None and not isinstance(res.py, list))):
+                return None
+            if st3.gen != st.gen:
                 return None
         sels = []
         for (st3, fr3, res) in outcomes:
             extra = st3.pc[base_len:]
-            sels.append(z3.And(*extra) if len(extra) != 1 else extra[0]) if extra else sels.append(z3.BoolVal(True))
+            if not extra:
+                sels.append(z3.BoolVal(True))
+            elif len(extra) == 1:
+                sels.append(extra[0])
+            else:
+                sels.append(z3.And(*extra))
         st4 = st.fork()
         st4.assume(z3.Or(*sels))
+        # allocation counter
+        if any(not o[0].alloc.eq(st.alloc) for o in outcomes):
+            al = outcomes[-1][0].alloc
+            for (st3, fr3, res), sel in list(zip(outcomes, sels))[-2::-1]:
+                al = z3.If(sel, st3.alloc, al)
+            st4.alloc = al
+        # heaps
+        names = set()
+        for (st3, fr3, res) in outcomes:
+            names.update(st3.heaps.keys())
+        for k in names:
+            vals = []
+            differ = False
+            for (st3, fr3, res) in outcomes:
+                v = st3.heaps.get(k)
+                if v is None:
+                    v = st.heaps.get(k)
+                    if v is None:
+                        v = self.base_heap(k, st.gen)
+                vals.append(v)
+            v0 = vals[0]
+            if all(v.eq(v0) for v in vals[1:]):
+                st4.heaps[k] = v0
+                continue
+            h = vals[-1]
+            for v, sel in list(zip(vals, sels))[-2::-1]:
+                h = z3.If(sel, v, h)
+            st4.heaps[k] = h
         r0 = outcomes[-1][2]
         if r0 is None:
             return st4, None
